@@ -24,6 +24,7 @@ type mEdit struct {
 	P      string   `json:"p"`
 	Kind   string   `json:"kind"`
 	Stages []string `json:"stages"`
+	Spec   string   `json:"spec"`
 }
 
 type mRule struct {
@@ -57,7 +58,13 @@ type mRoot struct {
 	Ctl     bool      `json:"ctl"`
 	CR      []string  `json:"cr"`
 	NR      []string  `json:"nr"`
+	PD      []mDir    `json:"pd"`
 	Err     string    `json:"err,omitempty"`
+}
+
+type mDir struct {
+	Name string `json:"name"`
+	Spec string `json:"spec"`
 }
 
 type mStep struct {
@@ -139,7 +146,15 @@ func (n *mNames) projectRoot(r tuf.RootMetadata) (m mRoot) {
 			m = mRoot{Err: fmt.Sprint("panic: ", x)}
 		}
 	}()
-	m = mRoot{Pr: []string{}, RootIDs: []string{}, TgtIDs: []string{}, Globals: []mGlobal{}, Pre: []string{}, Push: []string{}, CR: []string{}, NR: []string{}}
+	m = mRoot{Pr: []string{}, RootIDs: []string{}, TgtIDs: []string{}, Globals: []mGlobal{}, Pre: []string{}, Push: []string{}, CR: []string{}, NR: []string{}, PD: []mDir{}}
+	for _, d := range r.GetPropagationDirectives() {
+		spec := "?"
+		if d.GetUpstreamRepository() == "https://example.com/up" && d.GetUpstreamReference() == "refs/heads/main" && d.GetUpstreamPath() == "" &&
+			d.GetDownstreamReference() == "refs/heads/main" {
+			spec = d.GetDownstreamPath()
+		}
+		m.PD = append(m.PD, mDir{Name: d.GetName(), Spec: spec})
+	}
 	m.Ctl = r.IsController()
 	for _, o := range r.GetControllerRepositories() {
 		m.CR = append(m.CR, o.GetName())
@@ -286,6 +301,19 @@ func applyRootEdit(r tuf.RootMetadata, e mEdit, n *mNames) error {
 		return err
 	case "RemoveHook":
 		return r.RemoveHook(stagesOf(e.Stages), e.Name)
+	case "AddPropagationDirective", "UpdatePropagationDirective":
+		var d tuf.PropagationDirective
+		if _, isV01 := r.(*tufv01.RootMetadata); isV01 {
+			d = tufv01.NewPropagationDirective(e.Name, "https://example.com/up", "refs/heads/main", "", "refs/heads/main", e.Spec)
+		} else {
+			d = tufv02.NewPropagationDirective(e.Name, "https://example.com/up", "refs/heads/main", "", "refs/heads/main", e.Spec)
+		}
+		if e.Op == "AddPropagationDirective" {
+			return r.AddPropagationDirective(d)
+		}
+		return r.UpdatePropagationDirective(d)
+	case "DeletePropagationDirective":
+		return r.DeletePropagationDirective(e.Name)
 	case "EnableController":
 		return r.EnableController()
 	case "DisableController":
